@@ -797,6 +797,25 @@ theorem start_schedules_recurring :
     ∀ t ∈ recurring ++ [KM.Generated.TaskKind.SyncParent], t ∈ KM.Generated.startMissing := by
   decide
 
+/-- … and they are scheduled on EVERY start: the scheduling calls of the store-wide recurring tasks are plain
+statements of `queue_start_tasks`, inside no loop and under no condition (`startGuards`, regenerated from the source
+with the loops and conditions each call is nested in).  A call moved under "if there are CAs" would leave an instance
+that starts empty without re-publication and renewal for the life of the process – the tasks only ever re-queue
+themselves, and nothing else schedules them. -/
+theorem recurring_scheduled_unconditionally :
+    ∀ t ∈ recurring, (t, ([] : List String)) ∈ KM.Generated.startGuards := by
+  decide
+
+/-- The guards of the other start tasks are the reviewed ones: per CA (and per parent), the re-sync threshold, the
+suspension and testbed and RISwhois switches of the configuration. -/
+theorem start_guards_reviewed :
+    KM.Generated.startGuards.map (fun g => (g.1, g.2.length)) =
+      [(.SyncParent, 2), (.SyncRepo, 2), (.SuspendChildrenIfNeeded, 2), (.RepublishIfNeeded, 0),
+       (.RenewObjectsIfNeeded, 0), (.RefreshAnnouncementsInfo, 1), (.UpdateSnapshots, 0), (.RenewTestbedTa, 1)] ∧
+    (∀ g ∈ KM.Generated.startGuards, g.1 = .SyncParent ∨ g.1 = .SyncRepo ∨ g.1 = .SuspendChildrenIfNeeded →
+      g.2.head? = some "for handle in &cas") := by
+  decide
+
 /-- A recurring task never ends without scheduling itself again: the only result its handler
 can return is a follow-up of the same task. -/
 theorem recurring_never_stops :
